@@ -111,8 +111,14 @@ fn zrep() -> impl Strategy<Value = (Hex, Hex, Hex)> {
         let p = p.clone();
         prop::array::uniform32(any::<u8>()).prop_map(move |a| gen::hex32(&(from_be(&a) % (&p - 1u32) + 1u32)))
     };
+    // Z whose *Montgomery limbs* are a small integer (the field element k * R^-1): the classic plain-vs-Montgomery "one" confusion
+    let raw = |k: u32| gen::hex32(&((BigUint::from(k) * rinv()) % r9::p_static()));
+    let raws = prop::sample::select(vec![raw(1), raw(2), raw(3)]);
+    let raws2 = raws.clone();
     prop_oneof![
         2 => Just((one.clone(), one.clone(), zero.clone())),
+        1 => (raws, Just(one.clone()), Just(zero.clone())),
+        1 => (Just(one.clone()), raws2, Just(zero.clone())),
         2 => (rnd(), Just(one.clone()), Just(zero.clone())),
         2 => (Just(one.clone()), rnd(), rnd()),
         1 => (Just(one.clone()), Just(zero.clone()), rnd()),
@@ -156,6 +162,13 @@ pub fn run(ctx: &Ctx) {
                 let z = |t: u64| gen::hex32(&(from_be(&expand_bytes(s * 8 + t, 32)) % (pr.p - 1u32) + 1u32));
                 v.push(PairCase { a: gen::hex32(a), b: gen::hex32(b), zp: one.clone(), zq0: one.clone(), zq1: zero.clone() });
                 v.push(PairCase { a: gen::hex32(a), b: gen::hex32(b), zp: z(1), zq0: z(2), zq1: z(3) });
+                if i == j {
+                    // Montgomery limbs of Z equal to the plain integers 1 / 2 (field elements R^-1, 2R^-1)
+                    let raw = |k: u32| gen::hex32(&((BigUint::from(k) * rinv()) % pr.p));
+                    v.push(PairCase { a: gen::hex32(a), b: gen::hex32(b), zp: raw(1), zq0: one.clone(), zq1: zero.clone() });
+                    v.push(PairCase { a: gen::hex32(a), b: gen::hex32(b), zp: one.clone(), zq0: raw(1), zq1: zero.clone() });
+                    v.push(PairCase { a: gen::hex32(a), b: gen::hex32(b), zp: raw(2), zq0: raw(1), zq1: raw(1) });
+                }
             }
         }
         v
